@@ -105,6 +105,15 @@ func genVC(P *Program, C *Contracts, S *Sorts, key string, pure map[*ssa.Functio
 		f.regs[p] = v
 		bind[p.Name()] = v.T
 		f.assumeNonFresh(p.Type(), v.T)
+		// the object a pointer parameter refers to existed before the call, hence refers only to such objects
+		if pt, ok := p.Type().Underlying().(*types.Pointer); ok {
+			if _, isArr := pt.Elem().Underlying().(*types.Array); !isArr {
+				h := S.heapForPointee(pt.Elem())
+				if nf := S.nonFresh(pt.Elem(), "(select "+ex.frozen(h)+" "+v.T+")", 0, "nf.Any"); nf != "" && nf != "true" {
+					ex.assume(nf)
+				}
+			}
+		}
 	}
 	for _, fv := range fn.FreeVars {
 		v := f.havocVal(fv.Type(), "fv."+fv.Name())
